@@ -2,17 +2,14 @@
 ;; Decoder of one MRO string literal: the escapes admitted by the tokenizer's string
 ;; rule (tokenizer.go: standard escapes abfnrtv\", three octal digits, xHH, uHHHH,
 ;; UHHHHHHHH) with the meaning they have in Go string literals: \x and octal escapes
-;; denote one byte, \u and \U a code point written in UTF-8 (RFC 3629), with U+FFFD for
-;; surrogates and values above U+10FFFF.  Specification, written from the language
-;; definition, not from unquoteBytes.
-;; State q = kind + 32 * acc  (acc: digits accumulated so far).
-(define-fun mrostr_START () Int 0)
-(define-fun mrostr_RUN () Int 1)
-(define-fun mrostr_ESC () Int 2)
-(define-fun mrostr_DONE () Int 3)
-(define-fun mrostr_REJECT () Int 4)
-(define-fun mrostr_kind ((q Int)) Int (mod q 32))
-(define-fun mrostr_acc ((q Int)) Int (div q 32))
+;; denote one byte (three octal digits: the value modulo 256), \u and \U a code point
+;; written in UTF-8 (RFC 3629), with U+FFFD for surrogates and values above U+10FFFF.
+;; Specification, written from the language definition, not from unquoteBytes.
+;;
+;; The decoder state is (kind k, accumulator a).  Kinds:
+;;   0 before the opening quote   1 inside the literal   2 after a backslash
+;;   3 after the closing quote    4 reject
+;;   5,6 \x digits   7..10 \u digits   11..18 \U digits   19,20 second/third octal digit
 (define-fun mrostr_hex ((b Int)) Int
   (ite (and (<= 48 b) (<= b 57)) (- b 48)
   (ite (and (<= 97 b) (<= b 102)) (- b 87)
@@ -23,25 +20,32 @@
 (define-fun mrostr_simple ((b Int)) Int
   (ite (= b 97) 7 (ite (= b 98) 8 (ite (= b 102) 12 (ite (= b 110) 10 (ite (= b 114) 13
   (ite (= b 116) 9 (ite (= b 118) 11 (ite (= b 92) 92 (ite (= b 34) 34 (- 1)))))))))))
-(define-fun mrostr_next ((q Int) (b Int)) Int
-  (let ((k (mod q 32)) (a (div q 32)) (h (mrostr_hex b)) (o (mrostr_oct b)))
+;; next kind / next accumulator
+(define-fun mrostr_nk ((k Int) (a Int) (b Int)) Int
+  (let ((h (mrostr_hex b)) (o (mrostr_oct b)))
   (ite (= k 0) (ite (= b 34) 1 4)
-  (ite (= k 1) (ite (= b 34) 3 (ite (= b 92) 2 (ite (mrostr_plain b) 1 4)))
+  (ite (= k 1) (ite (= b 34) 3 (ite (= b 92) 2 1))
   (ite (= k 2) (ite (>= (mrostr_simple b) 0) 1
-               (ite (= b 120) 5 (ite (= b 117) 7 (ite (= b 85) 11
-               (ite (>= o 0) (+ 19 (* 32 o)) 4)))))
-  (ite (= k 5) (ite (>= h 0) (+ 6 (* 32 h)) 4)
+               (ite (= b 120) 5 (ite (= b 117) 7 (ite (= b 85) 11 (ite (>= o 0) 19 4)))))
+  (ite (= k 5) (ite (>= h 0) 6 4)
   (ite (= k 6) (ite (>= h 0) 1 4)
-  (ite (and (<= 7 k) (<= k 9)) (ite (>= h 0) (+ (+ k 1) (* 32 (+ (* 16 a) h))) 4)
+  (ite (and (<= 7 k) (<= k 9)) (ite (>= h 0) (+ k 1) 4)
   (ite (= k 10) (ite (>= h 0) 1 4)
-  (ite (and (<= 11 k) (<= k 17)) (ite (>= h 0) (+ (+ k 1) (* 32 (+ (* 16 a) h))) 4)
+  (ite (and (<= 11 k) (<= k 17)) (ite (>= h 0) (+ k 1) 4)
   (ite (= k 18) (ite (>= h 0) 1 4)
-  (ite (= k 19) (ite (>= o 0) (+ 20 (* 32 (+ (* 8 a) o))) 4)
-  (ite (= k 20) (ite (and (>= o 0) (< (+ (* 8 a) o) 256)) 1 4)
+  (ite (= k 19) (ite (>= o 0) 20 4)
+  (ite (= k 20) (ite (>= o 0) 1 4)
   4)))))))))))))
+(define-fun mrostr_na ((k Int) (a Int) (b Int)) Int
+  (let ((h (mrostr_hex b)) (o (mrostr_oct b)))
+  (ite (and (= k 2) (>= o 0) (< (mrostr_simple b) 0)) o
+  (ite (and (= k 5) (>= h 0)) h
+  (ite (and (or (and (<= 7 k) (<= k 9)) (and (<= 11 k) (<= k 17))) (>= h 0)) (+ (* 16 a) h)
+  (ite (and (= k 19) (>= o 0)) (+ (* 8 a) o)
+  0))))))
 ;; the code point completed by the last hex digit of \u / \U, normalised as EncodeRune does
-(define-fun mrostr_cp ((q Int) (b Int)) Int
-  (let ((c (+ (* 16 (div q 32)) (mrostr_hex b))))
+(define-fun mrostr_cp ((a Int) (b Int)) Int
+  (let ((c (+ (* 16 a) (mrostr_hex b))))
   (ite (or (> c 1114111) (and (<= 55296 c) (<= c 57343))) 65533 c)))
 (define-fun mrostr_cplen ((c Int)) Int (ite (< c 128) 1 (ite (< c 2048) 2 (ite (< c 65536) 3 4))))
 (define-fun mrostr_cpbyte ((c Int) (i Int)) Int
@@ -49,30 +53,83 @@
   (ite (< c 2048) (ite (= i 0) (+ 192 (div c 64)) (+ 128 (mod c 64)))
   (ite (< c 65536) (ite (= i 0) (+ 224 (div c 4096)) (ite (= i 1) (+ 128 (mod (div c 64) 64)) (+ 128 (mod c 64))))
        (ite (= i 0) (+ 240 (div c 262144)) (ite (= i 1) (+ 128 (mod (div c 4096) 64)) (ite (= i 2) (+ 128 (mod (div c 64) 64)) (+ 128 (mod c 64)))))))))
-(define-fun mrostr_endsCP ((q Int) (b Int)) Bool
-  (and (or (= (mod q 32) 10) (= (mod q 32) 18)) (>= (mrostr_hex b) 0)))
-(define-fun mrostr_nemit ((q Int) (b Int)) Int
-  (let ((k (mod q 32)))
+(define-fun mrostr_endsCP ((k Int) (b Int)) Bool
+  (and (or (= k 10) (= k 18)) (>= (mrostr_hex b) 0)))
+;; number of bytes decoded at this input byte, and those bytes
+(define-fun mrostr_ne ((k Int) (a Int) (b Int)) Int
   (ite (= k 1) (ite (mrostr_plain b) 1 0)
   (ite (= k 2) (ite (>= (mrostr_simple b) 0) 1 0)
   (ite (= k 6) (ite (>= (mrostr_hex b) 0) 1 0)
-  (ite (mrostr_endsCP q b) (mrostr_cplen (mrostr_cp q b))
-  (ite (= k 20) (ite (and (>= (mrostr_oct b) 0) (< (+ (* 8 (div q 32)) (mrostr_oct b)) 256)) 1 0)
-  0)))))))
-(define-fun mrostr_e1 ((q Int) (b Int)) Int
-  (let ((k (mod q 32)))
+  (ite (mrostr_endsCP k b) (mrostr_cplen (mrostr_cp a b))
+  (ite (= k 20) (ite (>= (mrostr_oct b) 0) 1 0)
+  0))))))
+(define-fun mrostr_x1 ((k Int) (a Int) (b Int)) Int
   (ite (= k 1) b
   (ite (= k 2) (mrostr_simple b)
-  (ite (= k 6) (+ (* 16 (div q 32)) (mrostr_hex b))
-  (ite (mrostr_endsCP q b) (mrostr_cpbyte (mrostr_cp q b) 0)
-  (ite (= k 20) (+ (* 8 (div q 32)) (mrostr_oct b))
-  0)))))))
-(define-fun mrostr_e2 ((q Int) (b Int)) Int (mrostr_cpbyte (mrostr_cp q b) 1))
-(define-fun mrostr_e3 ((q Int) (b Int)) Int (mrostr_cpbyte (mrostr_cp q b) 2))
-(define-fun mrostr_e4 ((q Int) (b Int)) Int (mrostr_cpbyte (mrostr_cp q b) 3))
+  (ite (= k 6) (+ (* 16 a) (mrostr_hex b))
+  (ite (mrostr_endsCP k b) (mrostr_cpbyte (mrostr_cp a b) 0)
+  (ite (= k 20) (mod (+ (* 8 a) (mrostr_oct b)) 256)
+  0))))))
+(define-fun mrostr_x2 ((k Int) (a Int) (b Int)) Int (mrostr_cpbyte (mrostr_cp a b) 1))
+(define-fun mrostr_x3 ((k Int) (a Int) (b Int)) Int (mrostr_cpbyte (mrostr_cp a b) 2))
+(define-fun mrostr_x4 ((k Int) (a Int) (b Int)) Int (mrostr_cpbyte (mrostr_cp a b) 3))
+
+;; ---- the same decoder with the state packed into one integer q = k + 32 * a, as the
+;; ghost monitor of the verifier wants it
+(define-fun mrostr_START () Int 0)
+(define-fun mrostr_RUN () Int 1)
+(define-fun mrostr_ESC () Int 2)
+(define-fun mrostr_DONE () Int 3)
+(define-fun mrostr_REJECT () Int 4)
+(define-fun mrostr_next ((q Int) (b Int)) Int
+  (+ (mrostr_nk (mod q 32) (div q 32) b) (* 32 (mrostr_na (mod q 32) (div q 32) b))))
+(define-fun mrostr_nemit ((q Int) (b Int)) Int (mrostr_ne (mod q 32) (div q 32) b))
+(define-fun mrostr_e1 ((q Int) (b Int)) Int (mrostr_x1 (mod q 32) (div q 32) b))
+(define-fun mrostr_e2 ((q Int) (b Int)) Int (mrostr_x2 (mod q 32) (div q 32) b))
+(define-fun mrostr_e3 ((q Int) (b Int)) Int (mrostr_x3 (mod q 32) (div q 32) b))
+(define-fun mrostr_e4 ((q Int) (b Int)) Int (mrostr_x4 (mod q 32) (div q 32) b))
+
 ;; RFC 3629: the bytes of the UTF-8 encoding of a valid code point (links the abstract
-;; utf8_enc of the utf8 library to arithmetic)
+;; utf8_enc of the utf8 library to arithmetic); utf8.EncodeRune writes U+FFFD (EF BF BD)
+;; for surrogates and values outside the Unicode range
 (assert (forall ((r Int) (i Int))
   (! (=> (and (<= 0 r) (<= r 1114111) (not (and (<= 55296 r) (<= r 57343))) (<= 0 i) (< i (utf8_len r)))
          (= (utf8_enc r i) (mrostr_cpbyte r i)))
      :pattern ((utf8_enc r i)))))
+(assert (forall ((r Int) (i Int))
+  (! (=> (and (or (< r 0) (> r 1114111) (and (<= 55296 r) (<= r 57343))) (<= 0 i) (< i 3))
+         (= (utf8_enc r i) (mrostr_cpbyte 65533 i)))
+     :pattern ((utf8_enc r i)))))
+
+;; ---- the decoder as functions of the interior of a literal (the n bytes between the
+;; quotes, starting at offset o of array a), defined by recurrence over the number j of
+;; bytes consumed, starting inside the literal:
+;;   mrostr_runk / mrostr_runa : kind and accumulator after j bytes;
+;;   mrostr_olen : number of bytes decoded so far;
+;;   mrostr_dec  : the decoded bytes (position olen(j)+t holds the (t+1)-th byte decoded
+;;                 at input byte j; positions are distinct because olen only grows).
+(declare-fun mrostr_runk ((Array Int Int) Int Int Int) Int)
+(declare-fun mrostr_runa ((Array Int Int) Int Int Int) Int)
+(declare-fun mrostr_olen ((Array Int Int) Int Int Int) Int)
+(declare-fun mrostr_dec ((Array Int Int) Int Int Int) Int)
+(assert (forall ((a (Array Int Int)) (o Int) (n Int))
+  (! (and (= (mrostr_runk a o n 0) 1) (= (mrostr_runa a o n 0) 0) (= (mrostr_olen a o n 0) 0)) :pattern ((mrostr_runk a o n 0)))))
+(assert (forall ((a (Array Int Int)) (o Int) (n Int) (j Int))
+  (! (=> (and (<= 0 j) (< j n))
+      (let ((k (mrostr_runk a o n j)) (c (mrostr_runa a o n j)) (b (select a (+ o j))) (l (mrostr_olen a o n j)))
+      (and (= (mrostr_runk a o n (+ j 1)) (mrostr_nk k c b))
+           (= (mrostr_runa a o n (+ j 1)) (mrostr_na k c b))
+           (= (mrostr_olen a o n (+ j 1)) (+ l (mrostr_ne k c b)))
+           (>= l 0)
+           (=> (>= (mrostr_ne k c b) 1) (= (mrostr_dec a o n l) (mrostr_x1 k c b)))
+           (=> (>= (mrostr_ne k c b) 2) (= (mrostr_dec a o n (+ l 1)) (mrostr_x2 k c b)))
+           (=> (>= (mrostr_ne k c b) 3) (= (mrostr_dec a o n (+ l 2)) (mrostr_x3 k c b)))
+           (=> (>= (mrostr_ne k c b) 4) (= (mrostr_dec a o n (+ l 3)) (mrostr_x4 k c b))))))
+     :pattern ((mrostr_runk a o n j)))))
+;; a literal without backslash or quote inside denotes its own bytes (by induction over n
+;; from the recurrence; stated as an axiom because the solver does no induction)
+(assert (forall ((a (Array Int Int)) (o Int) (n Int))
+  (! (=> (and (>= n 0) (forall ((j Int)) (=> (and (<= 0 j) (< j n)) (mrostr_plain (select a (+ o j))))))
+         (and (= (mrostr_runk a o n n) 1) (= (mrostr_olen a o n n) n)
+              (forall ((i Int)) (=> (and (<= 0 i) (< i n)) (= (mrostr_dec a o n i) (select a (+ o i)))))))
+     :pattern ((mrostr_olen a o n n)) :pattern ((mrostr_runk a o n n)))))
